@@ -21,7 +21,7 @@ func vhAssertCapacity(s Stack, cfg *nodeConfig, id string) {
 // 3 Marshal-into, 4 Pop, 5 Remove, 6 Reset)
 func VH_C03_Step(p []int) {
 	n, m := p[0], p[2]
-	pre := vhArbitraryStack(n, p[1], false, vhOptMask&^(ronly|nnest), 2, 3)
+	pre := vhArbitraryStack(n, p[1], false, vhOptMask, 2, 3)
 	cfg := pre.cfg
 	vhAssertCapacity(pre.s, cfg, "pre")
 	capped := cfg.cap != 0
@@ -30,21 +30,45 @@ func VH_C03_Step(p []int) {
 		free = cfg.cap - 1 - n
 	}
 	model := pre.model
-	if len(p) > 4 && p[4] == 1 {
+	policy := len(p) > 4 && p[4] == 1
+	if policy {
 		// the limit must hold on the policy-guarded append path as well
-		pre.s.SetPushPolicy(func(...any) error { return nil })
+		cfg.ppf = func(...any) error { return nil }
+	}
+	if cfg.opt&ronly != 0 {
+		// a read-only stack: the capacity arithmetic keeps holding and
+		// nothing below may change the content
+		vhC03Op(pre.s, p[3], m, 0)
+		vhAssertContent(pre.s, model, "read-only-unchanged")
+		vhInv(pre.s, cfg, "inv")
+		vhAssertCapacity(pre.s, cfg, "post")
+		verifReach("end-ro")
+		return
 	}
 	switch p[3] {
 	case 0:
+		// value k of the batch is a nested Stack where bit k of p[5] is set: a
+		// stack that refuses nesting skips it without using up room
+		nest := 0
+		if len(p) > 5 {
+			nest = p[5]
+		}
 		vals := make([]any, m)
 		for k := range vals {
 			vals[k] = vhTokens[6+k]
+			if nest&(1<<uint(k)) != 0 {
+				vals[k] = vhWrapStack(Or().Push("nested"), k%3)
+			}
 		}
 		pre.s.Push(vals...)
 		for k := range vals {
-			if !capped || k < free {
-				model = append(model, vals[k])
+			if capped && len(model) >= cfg.cap-1 {
+				break
 			}
+			if _, isStack := vhStackOf(vals[k]); isStack && cfg.opt&nnest != 0 && !policy {
+				continue
+			}
+			model = append(model, vals[k])
 		}
 		vhAssertContent(pre.s, model, "push-keeps-earliest")
 	case 1:
@@ -72,8 +96,10 @@ func VH_C03_Step(p []int) {
 		}
 	case 3:
 		err := pre.s.Marshal([]any{"AND", "x", "y"})
-		verifAssert(err == nil, "marshal-err")
-		if !capped || free > 0 {
+		if cfg.opt&nnest != 0 && !policy {
+			// the decoded Stack is refused like any other nested Stack
+			verifAssert(pre.s.Len() == n, "marshal-refused-nesting-unchanged")
+		} else if verifAssert(err == nil, "marshal-err"); !capped || free > 0 {
 			verifAssert(pre.s.Len() == n+1, "marshal-adds-one")
 		} else {
 			verifAssert(pre.s.Len() == n, "marshal-full-unchanged")
@@ -90,6 +116,31 @@ func VH_C03_Step(p []int) {
 	vhInv(pre.s, cfg, "inv")
 	vhAssertCapacity(pre.s, cfg, "post")
 	verifReach("end")
+}
+
+// vhC03Op applies operation op without looking at the outcome.
+func vhC03Op(s Stack, op, m, nest int) {
+	switch op {
+	case 0:
+		vals := make([]any, m)
+		for k := range vals {
+			vals[k] = vhTokens[6+k]
+		}
+		s.Push(vals...)
+	case 1:
+		s.Insert("Z", nondetInt())
+	case 2:
+		src := Basic().Push("t0", "t1")
+		_ = src.Transfer(s)
+	case 3:
+		_ = s.Marshal([]any{"AND", "x", "y"})
+	case 4:
+		s.Pop()
+	case 5:
+		s.Remove(nondetInt())
+	case 6:
+		s.Reset()
+	}
 }
 
 // p: k steps, m batch, capMax — grow and shrink around the boundary from a
